@@ -448,6 +448,10 @@ func (packet *PacketHandler) ReplaceBind(bindPacket *BindPacket) error {
 
 // GetSimpleQuery return query value as string from Query packet
 func (packet *PacketHandler) GetSimpleQuery() (string, error) {
+	// query is null terminated string, so packet should contain at least terminator
+	if packet.dataLength < 1 || packet.dataLength > packet.descriptionBuf.Len() {
+		return "", ErrPacketTruncated
+	}
 	return string(packet.descriptionBuf.Bytes()[:packet.dataLength-1]), nil
 }
 
